@@ -3,6 +3,7 @@
    ExprSyntaxError node, an unknown number literal or index key) it also returns an error
    diagnostic.  Equivalently: a result without diagnostics is `clean`.
 
+   PROVED IN FULL (theorem unusable_implies_error at the end).
    Invariant proved for every function (partial correctness: only Ok outcomes matter):
      if recovery was off at entry and the function returned no diagnostic, then recovery is
      still off and the returned AST (and the accumulators it was given) is clean.
@@ -42,7 +43,7 @@ Fixpoint clean (e : expr) : bool :=
   | EAnon => true
   | EBin _ l r => clean l && clean r
   | EUn _ e' => clean e'
-  | ETmpl ps => go ps && one_lit_str ps
+  | ETmpl ps => go ps
   | EJoin t => clean t
   | EWrap e' => clean e'
   | EParen e' => clean e'
@@ -64,10 +65,12 @@ Lemma clean_ECall n args x :
   clean (ECall n args x) = clean_list args && negb (x && match args with [] => true | _ => false end).
 Proof. cbn [clean]. rewrite clean_go. reflexivity. Qed.
 Lemma clean_ETuple es : clean (ETuple es) = clean_list es. Proof. cbn [clean]. apply clean_go. Qed.
-Lemma clean_ETmpl es : clean (ETmpl es) = clean_list es && one_lit_str es.
-Proof. cbn [clean]. rewrite clean_go. reflexivity. Qed.
-Lemma tmpl_lit_known v : is_str v = true -> known_val (tmpl_literal_value v) = true.
-Proof. destruct v; cbn; congruence. Qed.
+Lemma clean_ETmpl es : clean (ETmpl es) = clean_list es. Proof. cbn [clean]. apply clean_go. Qed.
+Lemma tmpl_lit_known v : known_val v = true -> known_val (tmpl_literal_value v) = true.
+Proof.
+  destruct v; cbn [known_val tmpl_literal_value]; try reflexivity; try discriminate;
+    intros _; destruct (conv _ TStr) as [[]| |]; reflexivity.
+Qed.
 Lemma clean_EObj items : clean (EObj items) = clean_items items. Proof. cbn [clean]. apply clean_goi. Qed.
 Lemma clean_EFor a b coll key vl cond g :
   clean (EFor a b coll key vl cond g) = clean coll && clean_opt key && clean vl && clean_opt cond.
@@ -115,6 +118,9 @@ Ltac vclean :=
   repeat match goal with
   | H : number_lit_value _ = (_, _) |- _ =>
       let H' := fresh in pose proof (number_lit_clean _ _ _ H) as H'; clear H
+  | H : (if ?c then _ else _) = [] |- _ => destruct c eqn:?
+  | H : context[match ?o with Some _ => _ | None => _ end] |- _ => is_var o; destruct o
+  | a : (_ * _)%type |- _ => destruct a
   | H : _ ++ _ = [] |- _ => apply app_eq_nil in H; destruct H
   | H : when _ _ = [] |- _ => apply when_nil in H
   | H : negb _ = false |- _ => apply Bool.negb_false_iff in H
@@ -333,12 +339,18 @@ Definition QName (r : (expr * diags) + (list Z * ptok)) (rc rc' : bool) : Prop :
   match r with inl (_, d) => d <> [] | inr _ => rc' = rc end.
 Definition QTI (r : list expr * bool * diags) (rc rc' : bool) : Prop :=
   snd r = [] -> rc = false ->
-  rc' = false /\ clean_list (fst (fst r)) = true /\
-  (snd (fst r) = false -> one_lit_str (fst (fst r)) = true) /\
-  (snd (fst r) = true -> exists x, fst (fst r) = [x]).
+  rc' = false /\ clean_list (fst (fst r)) = true.
 
+Definition QKV (r : option expr * diags * expr * diags) (rc rc' : bool) : Prop :=
+  snd (fst (fst r)) = [] -> snd r = [] -> rc = false ->
+  rc' = false /\ clean_opt (fst (fst (fst r))) = true /\ clean (snd (fst r)) = true.
+Definition QCond (r : option expr * diags * bool) (rc rc' : bool) : Prop :=
+  snd (fst r) = [] -> rc = false -> rc' = false /\ clean_opt (fst (fst r)) = true /\ snd r = false.
+Definition QClose (ds : diags) (r : diags) (rc rc' : bool) : Prop :=
+  r = [] -> ds = [] /\ (rc = false -> rc' = false).
 Ltac vunfoldQ ::=
-  unfold Qsame, Qon, Qds, Qdsacc, QE, QEacc, QLacc, QIacc, QArgs, QSplat, QName, QTI, clean_pending in *.
+  unfold Qsame, Qon, Qds, Qdsacc, QE, QEacc, QLacc, QIacc, QArgs, QSplat, QName, QTI, clean_pending,
+         QKV, QCond, QClose in *.
 
 Lemma binary_ops_loop_v sub level (Hsub : vspec QE sub) fuel : forall lhs pending ds,
   vspec (QEacc ds (clean lhs && clean_pending pending)) (binary_ops_loop fuel sub level lhs pending ds).
@@ -414,43 +426,640 @@ Lemma tuple_cons_v p_for loop :
   vspec QE (parse_tuple_cons_body p_for loop).
 Proof. unfold vspec. intros Hf Hl. vstart. unfold parse_tuple_cons_body. vrun. Qed.
 
+Lemma object_loop_v p_expr self :
+  vspec QE p_expr -> (forall a d, vspec (QIacc d (clean_items a)) (self a d)) ->
+  forall a d, vspec (QIacc d (clean_items a)) (object_loop_body f p_expr self a d).
+Proof. unfold vspec. intros He Hs a d. vstart. unfold object_loop_body. vrun. Qed.
+
+Lemma object_cons_v p_for loop :
+  (forall o, vspec QE (p_for o)) -> (forall a d, vspec (QIacc d (clean_items a)) (loop a d)) ->
+  vspec QE (parse_object_cons_body p_for loop).
+Proof. unfold vspec. intros Hf Hl. vstart. unfold parse_object_cons_body. vrun. Qed.
+
+(* finishParsingForExpr, by segments *)
+Lemma for_names_v : vspec Qsame for_names.
+Proof. unfold vspec. vstart. unfold for_names. vrun. Qed.
+Lemma for_key_val_v p_expr : vspec QE p_expr -> vspec QKV (for_key_val p_expr).
+Proof. unfold vspec. intro He. vstart. unfold for_key_val. vrun. Qed.
+Lemma for_group_v : vspec Qsame for_group.
+Proof. unfold vspec. vstart. unfold for_group. vrun. Qed.
+Lemma for_cond_v p_expr : vspec QE p_expr -> vspec QCond (for_cond p_expr).
+Proof. unfold vspec. intro He. vstart. unfold for_cond. vrun. Qed.
+Lemma for_close_v ct ds : vspec (QClose ds) (for_close f ct ds).
+Proof. unfold vspec. vstart. unfold for_close. vrun. Qed.
+
+Lemma for_expr_v p_expr : vspec QE p_expr -> forall o, vspec QE (finish_parsing_for_expr_body f p_expr o).
+Proof.
+  intros He o.
+  pose proof for_names_v as H1. pose proof (for_key_val_v _ He) as H2.
+  pose proof for_group_v as H3. pose proof (for_cond_v _ He) as H4. pose proof for_close_v as H5.
+  unfold vspec in *. vstart.
+  unfold finish_parsing_for_expr_body, finish_parsing_for_expr_inner, for_bail_diag, for_bail. vrun.
+Qed.
 End bodies.
 
-(* ---- statement and status ---------------------------------------------------------------------------------
-   The full statement (for the public entry points).  It is NOT proved in full here. *)
-Definition clean_body_item := fix cbi (i : pitem) : bool :=
+
+(* ================= templates ================= *)
+
+(* ---- templates -------------------------------------------------------------------------------------------- *)
+Definition clean_part (t : ttok) : bool :=
+  match t with
+  | TInterp e => clean e
+  | TIf c => clean c
+  | TFor _ _ coll => clean coll
+  | _ => true
+  end.
+Notation clean_parts := (forallb clean_part).
+
+Lemma clean_parts_rtrim ps : clean_parts (rtrim_last ps) = clean_parts ps.
+Proof. destruct ps as [|[] r]; reflexivity. Qed.
+
+Lemma clean_parts_flush_adjust ps : forall nl k, clean_parts (flush_adjust ps nl k) = clean_parts ps.
+Proof.
+  induction ps as [|t r IH]; intros nl k; [reflexivity|].
+  cbn [flush_adjust]. destruct nl.
+  - destruct t; cbn [forallb clean_part]; try (rewrite IH; reflexivity); try reflexivity.
+    destruct (match trim_left_space s with [] => ends_with_newline s | _ :: _ => false end);
+      cbn [forallb clean_part]; rewrite IH; reflexivity.
+  - cbn [forallb]. rewrite IH. reflexivity.
+Qed.
+
+Lemma clean_parts_flush ps : clean_parts (flush_heredoc_template_parts ps) = clean_parts ps.
+Proof. unfold flush_heredoc_template_parts. destruct (flush_min ps true None); [apply clean_parts_flush_adjust | reflexivity]. Qed.
+
+Lemma clean_parts_meld ps : clean_parts (meld_consecutive_string_literals ps) = clean_parts ps.
+Proof.
+  induction ps as [|t r IH]; [reflexivity|].
+  cbn [meld_consecutive_string_literals].
+  destruct (meld_consecutive_string_literals r) as [|m0 m'] eqn:E.
+  - destruct t; cbn [forallb] in *; rewrite <- IH; reflexivity.
+  - destruct t; try (cbn [forallb] in *; rewrite <- IH; reflexivity).
+    destruct m0; cbn [forallb clean_part] in *; rewrite <- IH; reflexivity.
+Qed.
+
+(* the template-token parser: diagnostics only accumulate *)
+Lemma tp_prefix fuel :
+  (forall c ts i el ie ds x d r, tp_if_loop fuel c ts i el ie ds = TOk (x, d, r) -> exists suf, d = ds ++ suf) /\
+  (forall kv vv coll ts cr ds x d r, tp_for_loop fuel kv vv coll ts cr ds = TOk (x, d, r) -> exists suf, d = ds ++ suf).
+Proof.
+  induction fuel as [|f (IHi & IHf)]; [split; intros; discriminate|].
+  split.
+  - intros c ts i el ie ds x d r H. destruct ts as [|t ts0]; [discriminate|].
+    assert (Hstep :
+              match tp_parse_expr f (t :: ts0) with
+              | TOk (e, eds, r0) =>
+                  if ie then tp_if_loop f c r0 i (e :: el) ie (ds ++ eds)
+                  else tp_if_loop f c r0 (e :: i) el ie (ds ++ eds)
+              | TOutOfFuel => TOutOfFuel
+              | TPanic p => TPanic p
+              end = TOk (x, d, r) -> exists suf, d = ds ++ suf).
+    { intro H'. destruct (tp_parse_expr f (t :: ts0)) as [[[e eds] r0]| |]; try discriminate.
+      destruct ie; apply IHi in H'; destruct H' as [suf ->]; exists (eds ++ suf); rewrite app_assoc; reflexivity. }
+    destruct t; cbn [tp_if_loop] in H; try (apply Hstep; exact H).
+    + destruct (ty =? tElse).
+      * destruct (negb ie); [apply IHi in H; exact H|]. inversion H; subst. eexists; reflexivity.
+      * destruct (ty =? tEndIf); inversion H; subst; [exists []; rewrite app_nil_r|eexists]; reflexivity.
+    + inversion H; subst. eexists; reflexivity.
+  - intros kv vv coll ts cr ds x d r H. destruct ts as [|t ts0]; [discriminate|].
+    assert (Hstep :
+              match tp_parse_expr f (t :: ts0) with
+              | TOk (e, eds, r0) => tp_for_loop f kv vv coll r0 (e :: cr) (ds ++ eds)
+              | TOutOfFuel => TOutOfFuel
+              | TPanic p => TPanic p
+              end = TOk (x, d, r) -> exists suf, d = ds ++ suf).
+    { intro H'. destruct (tp_parse_expr f (t :: ts0)) as [[[e eds] r0]| |]; try discriminate.
+      apply IHf in H'. destruct H' as [suf ->]. exists (eds ++ suf). rewrite app_assoc. reflexivity. }
+    destruct t; cbn [tp_for_loop] in H; try (apply Hstep; exact H).
+    + destruct (ty =? tEndFor); inversion H; subst; [exists []; rewrite app_nil_r|eexists]; reflexivity.
+    + inversion H; subst. eexists; reflexivity.
+Qed.
+
+Lemma prefix_nil (ds suf d : diags) : d = ds ++ suf -> d = [] -> ds = [] /\ suf = [].
+Proof. intros -> H. apply app_eq_nil in H. exact H. Qed.
+
+Lemma clean_list_rev_or_empty (l : list expr) :
+  clean_list l = true ->
+  clean_list (match l with [] => [empty_string_lit] | _ => rev l end) = true.
+Proof. intro H. destruct l; [reflexivity|]. rewrite clean_list_rev. exact H. Qed.
+
+Lemma clean_cond_tmpl c a b : clean (ECond c (ETmpl a) (ETmpl b)) = clean c && clean_list a && clean_list b.
+Proof. cbn [clean]. rewrite (clean_go a), (clean_go b). reflexivity. Qed.
+Lemma clean_join_for kv vv coll content :
+  clean (EJoin (EFor kv vv coll None (ETmpl content) None false)) = clean coll && clean_list content.
+Proof. cbn [clean]. rewrite (clean_go content), !Bool.andb_true_r. reflexivity. Qed.
+
+(* ... and without diagnostics the result is clean *)
+Lemma tp_clean fuel :
+  (forall ts e d r, tp_parse_expr fuel ts = TOk (e, d, r) -> clean_parts ts = true -> d = [] ->
+     clean e = true /\ clean_parts r = true) /\
+  (forall c ts i el ie ds x d r, tp_if_loop fuel c ts i el ie ds = TOk (x, d, r) ->
+     clean c = true -> clean_parts ts = true -> clean_list i = true -> clean_list el = true -> d = [] ->
+     clean x = true /\ clean_parts r = true) /\
+  (forall kv vv coll ts cr ds x d r, tp_for_loop fuel kv vv coll ts cr ds = TOk (x, d, r) ->
+     clean coll = true -> clean_parts ts = true -> clean_list cr = true -> d = [] ->
+     clean x = true /\ clean_parts r = true).
+Proof.
+  induction fuel as [|f (IHe & IHi & IHf)]; [repeat split; intros; discriminate|].
+  destruct (tp_prefix f) as [PFi PFf].
+  split; [|split].
+  - (* parseExpr *)
+    intros ts e d r H Hc Hd. destruct ts as [|t ts0]; [discriminate|].
+    cbn [forallb] in Hc. apply Bool.andb_true_iff in Hc. destruct Hc as [Ht Hts].
+    destruct t; cbn [tp_parse_expr] in H; cbn [clean_part] in Ht.
+    + inversion H; subst. split; [reflexivity | assumption].
+    + inversion H; subst. split; assumption.
+    + exact (IHi _ _ _ _ _ _ _ _ _ H Ht Hts eq_refl eq_refl Hd).
+    + exact (IHf _ _ _ _ _ _ _ _ _ H Ht Hts eq_refl Hd).
+    + inversion H; subst. discriminate.
+    + inversion H; subst. discriminate.
+  - (* parseIf *)
+    intros c ts i el ie ds x d r H Hc Hts Hi Hel Hd. destruct ts as [|t ts0]; [discriminate|].
+    assert (Hstep :
+              match tp_parse_expr f (t :: ts0) with
+              | TOk (e, eds, r0) =>
+                  if ie then tp_if_loop f c r0 i (e :: el) ie (ds ++ eds)
+                  else tp_if_loop f c r0 (e :: i) el ie (ds ++ eds)
+              | TOutOfFuel => TOutOfFuel
+              | TPanic p => TPanic p
+              end = TOk (x, d, r) -> clean x = true /\ clean_parts r = true).
+    { intro H'. destruct (tp_parse_expr f (t :: ts0)) as [[[e eds] r0]| |] eqn:E; try discriminate.
+      assert (Heds : eds = []).
+      { destruct ie; destruct (PFi _ _ _ _ _ _ _ _ _ H') as [suf Hs];
+          destruct (prefix_nil _ _ _ Hs Hd) as [Hn _]; apply app_eq_nil in Hn; tauto. }
+      destruct (IHe _ _ _ _ E Hts Heds) as [Hce Hcr].
+      destruct ie.
+      - apply (IHi _ _ _ _ _ _ _ _ _ H'); try assumption. cbn [forallb]. rewrite Hce, Hel. reflexivity.
+      - apply (IHi _ _ _ _ _ _ _ _ _ H'); try assumption. cbn [forallb]. rewrite Hce, Hi. reflexivity. }
+    pose proof Hts as Hts'. cbn [forallb] in Hts'. apply Bool.andb_true_iff in Hts'. destruct Hts' as [_ Htl].
+    destruct t; cbn [tp_if_loop] in H; try (apply Hstep; exact H).
+    + destruct (ty =? tElse).
+      * destruct (negb ie); [exact (IHi _ _ _ _ _ _ _ _ _ H Hc Htl Hi Hel Hd)|].
+        inversion H; subst. apply app_eq_nil in H2. destruct H2; discriminate.
+      * destruct (ty =? tEndIf); inversion H; subst.
+        -- split; [|exact Htl]. rewrite clean_cond_tmpl, Hc.
+           rewrite (clean_list_rev_or_empty _ Hi), (clean_list_rev_or_empty _ Hel). reflexivity.
+        -- apply app_eq_nil in H2. destruct H2; discriminate.
+    + inversion H; subst. apply app_eq_nil in H2. destruct H2; discriminate.
+  - (* parseFor *)
+    intros kv vv coll ts cr ds x d r H Hc Hts Hcr Hd. destruct ts as [|t ts0]; [discriminate|].
+    assert (Hstep :
+              match tp_parse_expr f (t :: ts0) with
+              | TOk (e, eds, r0) => tp_for_loop f kv vv coll r0 (e :: cr) (ds ++ eds)
+              | TOutOfFuel => TOutOfFuel
+              | TPanic p => TPanic p
+              end = TOk (x, d, r) -> clean x = true /\ clean_parts r = true).
+    { intro H'. destruct (tp_parse_expr f (t :: ts0)) as [[[e eds] r0]| |] eqn:E; try discriminate.
+      assert (Heds : eds = []).
+      { destruct (PFf _ _ _ _ _ _ _ _ _ H') as [suf Hs];
+          destruct (prefix_nil _ _ _ Hs Hd) as [Hn _]; apply app_eq_nil in Hn; tauto. }
+      destruct (IHe _ _ _ _ E Hts Heds) as [Hce Hcr'].
+      apply (IHf _ _ _ _ _ _ _ _ _ H'); try assumption. cbn [forallb]. rewrite Hce, Hcr. reflexivity. }
+    pose proof Hts as Hts'. cbn [forallb] in Hts'. apply Bool.andb_true_iff in Hts'. destruct Hts' as [_ Htl].
+    destruct t; cbn [tp_for_loop] in H; try (apply Hstep; exact H).
+    + destruct (ty =? tEndFor); inversion H; subst.
+      * split; [|exact Htl]. rewrite clean_join_for, Hc.
+        rewrite (clean_list_rev_or_empty _ Hcr). reflexivity.
+      * apply app_eq_nil in H2. destruct H2; discriminate.
+    + inversion H; subst. apply app_eq_nil in H2. destruct H2; discriminate.
+Qed.
+
+Lemma tp_root_clean fuel : forall ts acc ds exprs d,
+  tp_parse_root fuel ts acc ds = TOk (exprs, d) -> clean_parts ts = true -> clean_list acc = true -> d = [] ->
+  ds = [] /\ clean_list exprs = true.
+Proof.
+  induction fuel as [|f IH]; intros ts acc ds exprs d H Hts Hacc Hd; [discriminate|].
+  destruct ts as [|t ts0]; [discriminate|].
+  assert (Hstep :
+            match tp_parse_expr f (t :: ts0) with
+            | TOk (e, eds, r) => tp_parse_root f r (e :: acc) (ds ++ eds)
+            | TOutOfFuel => TOutOfFuel
+            | TPanic p => TPanic p
+            end = TOk (exprs, d) -> ds = [] /\ clean_list exprs = true).
+  { intro H'. destruct (tp_parse_expr f (t :: ts0)) as [[[e eds] r]| |] eqn:E; try discriminate.
+    (* the accumulated diagnostics come back as a prefix *)
+    assert (Hpre : forall f ts acc ds exprs d, tp_parse_root f ts acc ds = TOk (exprs, d) -> exists suf, d = ds ++ suf).
+    { clear. induction f as [|f IH]; intros ts acc ds exprs d H; [discriminate|].
+      destruct ts as [|t ts0]; [discriminate|].
+      assert (Hs : match tp_parse_expr f (t :: ts0) with
+                   | TOk (e, eds, r) => tp_parse_root f r (e :: acc) (ds ++ eds)
+                   | TOutOfFuel => TOutOfFuel | TPanic p => TPanic p end = TOk (exprs, d) ->
+                   exists suf, d = ds ++ suf).
+      { intro H'. destruct (tp_parse_expr f (t :: ts0)) as [[[e eds] r]| |]; try discriminate.
+        apply IH in H'. destruct H' as [suf ->]. exists (eds ++ suf). rewrite app_assoc. reflexivity. }
+      destruct t; cbn [tp_parse_root] in H; try (apply Hs; exact H).
+      inversion H; subst. exists []. rewrite app_nil_r. reflexivity. }
+    destruct (Hpre _ _ _ _ _ _ H') as [suf Hs]. destruct (prefix_nil _ _ _ Hs Hd) as [Hn _].
+    apply app_eq_nil in Hn. destruct Hn as [Hds Heds].
+    destruct (tp_clean f) as [TE _]. destruct (TE _ _ _ _ E Hts Heds) as [Hce Hcr].
+    destruct (IH _ _ _ _ _ H' Hcr) as [_ Hx]; [cbn [forallb]; rewrite Hce, Hacc; reflexivity | exact Hd|].
+    split; assumption. }
+  destruct t; cbn [tp_parse_root] in H; try (apply Hstep; exact H).
+  inversion H; subst. split; [reflexivity|]. rewrite clean_list_rev. exact Hacc.
+Qed.
+
+(* parseTemplateParts *)
+Definition QParts (ds : diags) (pre : bool) (r : list ttok * diags) (rc rc' : bool) : Prop :=
+  snd r = [] -> ds = [] /\ (rc = false -> pre = true -> rc' = false /\ clean_parts (fst r) = true).
+Ltac vunfoldQ ::=
+  unfold Qsame, Qon, Qds, Qdsacc, QE, QEacc, QLacc, QIacc, QArgs, QSplat, QName, QTI, clean_pending,
+         QKV, QCond, QClose, QParts in *.
+
+Ltac vprep ::=
+  repeat first
+    [ progress (cbn [fst snd derrs] in * )
+    | progress vclean
+    | progress subst
+    | progress vchain
+    | match goal with
+      | H : ?c = true -> _ |- _ =>
+          let P := fresh in
+          assert (P : c = true)
+            by (first
+                  [ apply clean_make_rel;
+                    [ assumption
+                    | cbn [clean_step known_val];
+                      first [ reflexivity | assumption
+                            | apply tmpl_lit_known;
+                              cbn [clean clean_step known_val forallb] in *; vclean; assumption ] ]
+                  | rewrite ?clean_parts_rtrim;
+                    repeat match goal with |- context[if ?c then _ else _] => destruct c end;
+                    cbn [clean clean_step clean_opt clean_part known_val forallb fst snd] in *;
+                    rewrite ?clean_parts_rtrim;
+                    repeat match goal with E : ?x = true |- context[?x] =>
+                             lazymatch x with true => fail | _ => rewrite E end end;
+                    reflexivity ]);
+          specialize (H P); clear P
+      end
+    | match goal with H : context[(_ && false)%bool] |- _ => rewrite Bool.andb_false_r in H end
+    | match goal with H : ?x = false, H' : ?x = true |- _ => exfalso; congruence end ].
+
+Section with_pe.
+Variable pe : M (expr * diags).
+Hypothesis pe_v : vspec QE pe.
+
+Lemma template_parts_loop_v fuel : forall end_ parts ds l1 l2,
+  vspec (QParts ds (clean_parts parts)) (template_parts_loop pe fuel end_ parts ds l1 l2).
+Proof.
+  induction fuel as [|f IH]; intros end_ parts ds l1 l2; [intros s; exact I|].
+  unfold vspec in *. vstart. cbn [template_parts_loop]. vrun.
+Qed.
+
+Lemma parse_template_parts_v fuel end_ : vspec (QParts [] true) (parse_template_parts pe fuel end_).
+Proof.
+  pose proof (template_parts_loop_v fuel) as Hl. unfold vspec in *. vstart. unfold parse_template_parts. vrun.
+  all: cbv beta iota delta [voutcome nlstack recovery toks lasttok]; (split; [reflexivity|]); vunfoldQ;
+    repeat match goal with a : (_ * _)%type |- _ => destruct a end; cbn [fst snd] in *.
+  all: intros Hd; split; [reflexivity|]; intros Hrc _.
+  all: match goal with H : ?d = [] -> _ |- _ => specialize (H Hd); destruct H as [_ H]; specialize (H Hrc eq_refl); destruct H as [H1 H2] end.
+  all: split; [assumption|].
+  all: rewrite forallb_app; cbn [forallb clean_part]; rewrite ?Bool.andb_true_r.
+  all: try reflexivity.
+  all: match goal with |- context[match ?l with [] => _ | _ => _ end] => destruct l end;
+       [reflexivity | rewrite forallb_rev; assumption].
+Qed.
+
+Lemma parse_template_inner_v fuel end_ fl : vspec QTI (parse_template_inner pe fuel end_ fl).
+Proof.
+  intros s. unfold parse_template_inner.
+  pose proof (parse_template_parts_v fuel end_ s) as Hp.
+  unfold bind at 1. destruct (parse_template_parts pe fuel end_ s) as [[parts ds] s1| |]; try exact I.
+  cbn [voutcome] in Hp. destruct Hp as [Hsk HQ].
+  set (parts' := meld_consecutive_string_literals (if fl then flush_heredoc_template_parts parts else parts)).
+  unfold bind. destruct (tp_parse_root (tp_fuel parts') parts' [] []) as [[exprs eds]| |] eqn:E; cbn; try exact I.
+  split; [exact Hsk|]. unfold QTI, QParts in *. cbn [fst snd] in *. intros Hd Hrc.
+  apply app_eq_nil in Hd. destruct Hd as [Hd1 Hd2].
+  destruct (HQ Hd1) as [_ HQ']. destruct (HQ' Hrc eq_refl) as [Hrc' Hcp].
+  split; [exact Hrc'|].
+  assert (Hcp' : clean_parts parts' = true).
+  { unfold parts'. rewrite clean_parts_meld. destruct fl; [rewrite clean_parts_flush|]; exact Hcp. }
+  destruct (tp_root_clean _ _ _ _ _ _ E Hcp' eq_refl Hd2) as [_ Hx]. exact Hx.
+Qed.
+
+Lemma parse_template_v fuel end_ fl : vspec QE (parse_template pe fuel end_ fl).
+Proof.
+  pose proof (parse_template_inner_v fuel end_ fl) as H. unfold vspec in *.
+  vstart. unfold parse_template, template_node. vrun.
+Qed.
+End with_pe.
+
+(* ================= expression knot ================= *)
+
+Ltac vbase := intros; intro s; exact I.
+
+Lemma attr_splat_loop_vs f : forall t d, vspec (QSplat d (clean_steps t)) (attr_splat_loop f t d).
+Proof. induction f as [|f IH]; intros t d; [vbase|]. exact (attr_splat_loop_v (attr_splat_loop f) IH t d). Qed.
+
+Lemma call_name_loop_vs f : forall n o d, vspec QName (call_name_loop f n o d).
+Proof. induction f as [|f IH]; intros n o d; [vbase|]. exact (call_name_loop_v f (call_name_loop f) IH n o d). Qed.
+
+Definition expr_vspecs (f : nat) : Prop :=
+  vspec QE (parse_expression f) /\
+  vspec QE (parse_expression_with_traversals f) /\
+  (forall e d, vspec (QEacc d (clean e)) (traversals_loop f e d)) /\
+  vspec QE (parse_expression_term f) /\
+  (forall n, vspec QE (finish_parsing_function_call f n)) /\
+  (forall a d, vspec (QArgs d (clean_list a)) (call_args_loop f a d)) /\
+  vspec QE (parse_tuple_cons f) /\
+  (forall a d, vspec (QLacc d (clean_list a)) (tuple_loop f a d)) /\
+  vspec QE (parse_object_cons f) /\
+  (forall a d, vspec (QIacc d (clean_items a)) (object_loop f a d)) /\
+  (forall o, vspec QE (finish_parsing_for_expr f o)).
+
+Lemma expr_vknot f : expr_vspecs f.
+Proof.
+  induction f as [|f IH]; unfold expr_vspecs.
+  - repeat split; vbase.
+  - destruct IH as (HE & HWT & HTR & HT & HC & HAL & HTC & HTL & HOC & HOL & HF).
+    assert (HBO : vspec QE (fun s => parse_binary_ops f (parse_expression_with_traversals f) binary_ops s))
+      by (exact (parse_binary_ops_v _ f HWT binary_ops)).
+    assert (HTI : forall e fl, vspec QTI (parse_template_inner (parse_expression f) f e fl))
+      by (intros e fl; apply parse_template_inner_v; exact HE).
+    repeat split.
+    + exact (ternary_v _ _ HE HBO).
+    + exact (with_traversals_v _ _ HT (fun e => HTR e [])).
+    + exact (traversals_loop_v f _ _ _ _ HE (fun e => HTR e []) (attr_splat_loop_vs f) HTR).
+    + exact (term_v f _ _ _ _ _ _ HE HWT HC HTC HOC HTI).
+    + exact (function_call_v f _ _ (call_name_loop_vs f) HAL).
+    + exact (call_args_loop_v f _ _ HE HAL).
+    + exact (tuple_cons_v _ _ HF HTL).
+    + exact (tuple_loop_v f _ _ HE HTL).
+    + exact (object_cons_v _ _ HF HOL).
+    + exact (object_loop_v f _ _ HE HOL).
+    + exact (for_expr_v f _ HE).
+Qed.
+
+Lemma parse_expression_vs f : vspec QE (parse_expression f).
+Proof. apply (expr_vknot f). Qed.
+
+Lemma parse_expression_entry_m_v fuel : vspec QE (parse_expression_entry_m fuel).
+Proof.
+  pose proof (parse_expression_vs fuel) as He. unfold vspec in *.
+  vstart. unfold parse_expression_entry_m. vrun.
+Qed.
+
+Lemma parse_template_entry_m_v fuel : vspec QE (parse_template_entry_m fuel).
+Proof.
+  destruct fuel as [|f]; [vbase|]. cbn [parse_template_entry_m].
+  apply parse_template_v. apply parse_expression_vs.
+Qed.
+
+(* from the invariant of the parser body to the entry point: recovery starts off *)
+Lemma run_entry_clean {A} (m : M (A * diags)) (cl : A -> bool) ts a :
+  vspec (fun r rc rc' => snd r = [] -> rc = false -> rc' = rc' /\ cl (fst r) = true) m ->
+  run_entry ts m = EOk a [] -> cl a = true.
+Proof.
+  intros Hm. unfold run_entry. destruct (init_state ts) as [s0|] eqn:Ei; [|discriminate].
+  assert (Hrc : recovery s0 = false).
+  { destruct ts; [discriminate|]. cbn in Ei. inversion Ei; subst. reflexivity. }
+  specialize (Hm s0). unfold bind.
+  destruct (m s0) as [[a0 ds] s1| |]; try discriminate.
+  cbn [voutcome] in Hm. destruct Hm as [_ HQ].
+  destruct (assert_empty_include_newlines_stack s1) as [[] s2| |]; try discriminate.
+  cbn. intro H. inversion H as [[Ha Hd]]. subst a0.
+  apply app_eq_nil in Hd. destruct Hd as [_ Hd].
+  cbn [fst snd] in HQ. destruct (HQ Hd Hrc) as [_ Hc]. exact Hc.
+Qed.
+
+Lemma vspec_QE_weaken (m : M (expr * diags)) : vspec QE m ->
+  vspec (fun r rc rc' => snd r = [] -> rc = false -> rc' = rc' /\ clean (fst r) = true) m.
+Proof.
+  intros H s. specialize (H s). destruct (m s) as [[e d] s1| |]; try exact I.
+  cbn [voutcome] in *. destruct H as [H1 H2]. split; [exact H1|]. unfold QE in H2. cbn [fst snd] in *.
+  intros Hd Hrc. destruct (H2 Hd Hrc) as [_ Hc]. split; [reflexivity | exact Hc].
+Qed.
+
+Theorem expression_unusable_implies_error :
+  (forall ts e, parse_expression_entry ts = EOk e [] -> clean e = true) /\
+  (forall ts e, parse_template_entry ts = EOk e [] -> clean e = true).
+Proof.
+  split; intros ts e H.
+  - exact (run_entry_clean _ clean ts e (vspec_QE_weaken _ (parse_expression_entry_m_v _)) H).
+  - exact (run_entry_clean _ clean ts e (vspec_QE_weaken _ (parse_template_entry_m_v _)) H).
+Qed.
+
+(* ================= bodies and traversals ================= *)
+
+(* ---- bodies --------------------------------------------------------------------------------------------- *)
+Fixpoint clean_item (i : pitem) : bool :=
   match i with
   | PAttr _ e => clean e
-  | PBlock _ _ body => (fix go (l : list pitem) : bool := match l with [] => true | x :: r => cbi x && go r end) body
+  | PBlock _ _ body => (fix go (l : list pitem) : bool := match l with [] => true | x :: r => clean_item x && go r end) body
   end.
+Notation clean_pbody := (forallb clean_item).
+Lemma clean_item_block t ls b : clean_item (PBlock t ls b) = clean_pbody b.
+Proof. cbn [clean_item]. induction b as [|x r IH]; [reflexivity|]. cbn [forallb]. rewrite <- IH. reflexivity. Qed.
+Lemma clean_pbody_rev l : clean_pbody (rev l) = clean_pbody l. Proof. apply forallb_rev. Qed.
 
+Definition QI (r : pitem * diags) (rc rc' : bool) : Prop :=
+  snd r = [] -> rc = false -> rc' = false /\ clean_item (fst r) = true.
+Definition QOI (r : option pitem * diags) (rc rc' : bool) : Prop :=
+  snd r = [] -> rc = false -> rc' = false /\ exists i, fst r = Some i /\ clean_item i = true.
+Definition QOB (r : option pbody * diags) (rc rc' : bool) : Prop :=
+  snd r = [] -> rc = false -> rc' = false /\ exists b, fst r = Some b /\ clean_pbody b = true.
+Definition QBacc (ds : diags) (pre : bool) (r : pbody * diags) (rc rc' : bool) : Prop :=
+  snd r = [] -> ds = [] /\ (rc = false -> pre = true -> rc' = false /\ clean_pbody (fst r) = true).
+Definition QLabels (ds : diags) (r : (list (list Z) * diags) + (list (list Z) * diags)) (rc rc' : bool) : Prop :=
+  match r with
+  | inl (_, d) => d = [] -> ds = [] /\ (rc = false -> False)
+  | inr (_, d) => d = [] -> ds = [] /\ (rc = false -> rc' = false)
+  end.
+Definition QContent (ds : diags) (r : option pbody * diags * diags) (rc rc' : bool) : Prop :=
+  snd (fst r) = [] -> snd r = [] ->
+  ds = [] /\ (rc = false -> rc' = false /\ exists b, fst (fst r) = Some b /\ clean_pbody b = true).
+Ltac vunfoldQ ::=
+  unfold Qsame, Qon, Qds, Qdsacc, QE, QEacc, QLacc, QIacc, QArgs, QSplat, QName, QTI, clean_pending,
+         QKV, QCond, QClose, QParts, QI, QOI, QOB, QBacc, QLabels, QContent in *.
+
+Ltac vfacts :=
+  repeat match goal with H : ?x = true |- context[?x] => lazymatch x with true => fail | _ => rewrite H end end;
+  cbv iota; rewrite ?Bool.andb_false_r, ?Bool.andb_true_r; cbn [andb negb].
+
+Ltac vsolve ::=
+  vrewrite;
+  rewrite ?clean_item_block, ?clean_pbody_rev in *;
+  cbn [clean clean_step clean_opt known_val forallb fst snd] in *;
+  vprep;
+  vfacts;
+  first [ reflexivity | assumption | congruence
+        | (apply clean_make_rel; cbn [clean_step known_val]; first [assumption | reflexivity | congruence])
+        | (eexists; split; [reflexivity |
+             rewrite ?clean_item_block, ?clean_pbody_rev in *; cbn [forallb clean_item];
+             vfacts; first [reflexivity | assumption | congruence | vrewrite; assumption]])
+        | (intro; vprep; congruence) ].
+
+Ltac vfin ::=
+  cbv beta iota delta [voutcome nlstack recovery toks lasttok];
+  try exact I;
+  split; [reflexivity|];
+  vunfoldQ;
+  repeat match goal with a : (_ + _)%type |- _ => destruct a end;
+  repeat match goal with a : (_ * _)%type |- _ => destruct a end;
+  repeat (vgoal; vprep);
+  repeat match goal with
+         | o : option _ |- _ => destruct o as [[? ?]|]; cbn [clean] in *; vprep
+         end;
+  try solve [exfalso; vprep; congruence];
+  vgoal; vsolve.
+
+Section bodies.
+Variable f : nat.
+
+Lemma body_attribute_v p_expr : vspec QE p_expr ->
+  forall i sl, vspec QI (finish_parsing_body_attribute_body f p_expr i sl).
+Proof. unfold vspec. intros He i sl. vstart. unfold finish_parsing_body_attribute_body. vrun. Qed.
+
+Lemma single_attr_body_v p_attr : (forall i sl, vspec QI (p_attr i sl)) ->
+  forall e, vspec QOB (parse_single_attr_body_body f p_attr e).
+Proof. unfold vspec. intros Ha e. vstart. unfold parse_single_attr_body_body. vrun. Qed.
+
+Lemma block_labels_loop_v self : (forall l d, vspec (QLabels d) (self l d)) ->
+  forall l d, vspec (QLabels d) (block_labels_loop_body f self l d).
+Proof. unfold vspec. intros Hs l d. vstart. unfold block_labels_loop_body. vrun. Qed.
+
+Lemma block_content_v p_body p_single :
+  (forall e, vspec (QBacc [] true) (p_body e)) -> (forall e, vspec QOB (p_single e)) ->
+  forall ds, vspec (QContent ds) (parse_block_content f p_body p_single ds).
+Proof. unfold vspec. intros Hb Hs ds. vstart. unfold parse_block_content. vrun. Qed.
+
+Lemma body_block_v p_body p_single labels :
+  (forall e, vspec (QBacc [] true) (p_body e)) -> (forall e, vspec QOB (p_single e)) ->
+  (forall l d, vspec (QLabels d) (labels l d)) ->
+  forall i, vspec QI (finish_parsing_body_block_body f p_body p_single labels i).
+Proof.
+  intros Hb Hs Hl i. pose proof (block_content_v _ _ Hb Hs) as Hc.
+  unfold vspec in *. vstart. unfold finish_parsing_body_block_body. vrun.
+Qed.
+
+Lemma body_item_v p_attr p_block :
+  (forall i sl, vspec QI (p_attr i sl)) -> (forall i, vspec QI (p_block i)) ->
+  vspec QOI (parse_body_item_body f p_attr p_block).
+Proof. unfold vspec. intros Ha Hb. vstart. unfold parse_body_item_body. vrun. Qed.
+
+Lemma body_loop_v p_item self :
+  vspec QOI p_item -> (forall e i n d, vspec (QBacc d (clean_pbody i)) (self e i n d)) ->
+  forall e i n d, vspec (QBacc d (clean_pbody i)) (body_loop_body f p_item self e i n d).
+Proof. unfold vspec. intros Hi Hs e i n d. vstart. unfold body_loop_body. vrun. Qed.
+End bodies.
+
+(* ---- the knot --------------------------------------------------------------------------------------------- *)
+Lemma block_labels_loop_vs f : forall l d, vspec (QLabels d) (block_labels_loop f l d).
+Proof. induction f as [|f IH]; intros l d; [vbase|]. exact (block_labels_loop_v f (block_labels_loop f) IH l d). Qed.
+
+Lemma body_attribute_vs f : forall i sl, vspec QI (finish_parsing_body_attribute f i sl).
+Proof. destruct f as [|f]; intros i sl; [vbase|]. exact (body_attribute_v f _ (parse_expression_vs f) i sl). Qed.
+
+Lemma single_attr_body_vs f : forall e, vspec QOB (parse_single_attr_body f e).
+Proof. destruct f as [|f]; intros e; [vbase|]. exact (single_attr_body_v f _ (body_attribute_vs f) e). Qed.
+
+Definition body_vspecs (f : nat) : Prop :=
+  (forall e i n d, vspec (QBacc d (clean_pbody i)) (body_loop f e i n d)) /\
+  vspec QOI (parse_body_item f) /\
+  (forall i, vspec QI (finish_parsing_body_block f i)).
+
+Lemma body_vknot f : body_vspecs f.
+Proof.
+  induction f as [|f (HB & HI & HK)]; unfold body_vspecs.
+  - repeat split; vbase.
+  - repeat split.
+    + exact (body_loop_v f _ _ HI HB).
+    + exact (body_item_v f _ _ (body_attribute_vs f) HK).
+    + exact (body_block_v f _ _ _ (fun e => HB e [] [] []) (single_attr_body_vs f) (block_labels_loop_vs f)).
+Qed.
+
+Theorem config_unusable_implies_error :
+  forall ts b, parse_config ts = EOk b [] -> clean_pbody b = true.
+Proof.
+  intros ts b H. unfold parse_config in H.
+  apply (run_entry_clean (parse_body (fuel_for ts) TokenEOF) (fun b => clean_pbody b) ts b); [|exact H].
+  intro s. unfold parse_body.
+  destruct (body_vknot (fuel_for ts)) as (HB & _).
+  specialize (HB TokenEOF [] [] [] s).
+  destruct (body_loop (fuel_for ts) TokenEOF [] [] [] s) as [[b0 d0] s1| |]; try exact I.
+  cbn [voutcome] in *. destruct HB as [Hsk HQ]. split; [exact Hsk|].
+  unfold QBacc in HQ. cbn [fst snd] in *. intros Hd Hrc.
+  destruct (HQ Hd) as [_ HQ']. destruct (HQ' Hrc eq_refl) as [_ Hc]. split; [reflexivity | exact Hc].
+Qed.
+
+(* ---- traversals ---------------------------------------------------------------------------------------------- *)
+Definition clean_tstep (s : tstep) : bool := match s with TIndex v => known_val v | _ => true end.
+Notation clean_trav := (forallb clean_tstep).
+Definition QTrav (ds : diags) (pre : bool) (r : traversal * diags) (rc rc' : bool) : Prop :=
+  snd r = [] -> ds = [] /\ (pre = true -> clean_trav (fst r) = true).
+Ltac vunfoldQ ::=
+  unfold Qsame, Qon, Qds, Qdsacc, QE, QEacc, QLacc, QIacc, QArgs, QSplat, QName, QTI, clean_pending,
+         QKV, QCond, QClose, QParts, QI, QOI, QOB, QBacc, QLabels, QContent, QTrav in *.
+
+Lemma clean_trav_rev l : clean_trav (rev l) = clean_trav l. Proof. apply forallb_rev. Qed.
+
+Ltac vprep ::=
+  repeat first
+    [ progress (cbn [fst snd derrs] in * )
+    | progress vclean
+    | progress subst
+    | progress vchain
+    | match goal with
+      | H : ?c = true -> _ |- _ =>
+          let P := fresh in
+          assert (P : c = true)
+            by (cbn [clean clean_step clean_opt clean_part clean_tstep clean_item known_val forallb fst snd] in *;
+                repeat match goal with E : ?x = true |- context[?x] =>
+                         lazymatch x with true => fail | _ => rewrite E end end;
+                reflexivity);
+          specialize (H P); clear P
+      end
+    | match goal with H : context[(_ && false)%bool] |- _ => rewrite Bool.andb_false_r in H end
+    | match goal with H : ?x = false, H' : ?x = true |- _ => exfalso; congruence end ].
+
+Ltac vsolve ::=
+  rewrite ?clean_trav_rev in *;
+  cbn [clean_tstep known_val forallb fst snd] in *;
+  vprep; vfacts;
+  first [ reflexivity | assumption | congruence | (intro; vprep; congruence) ].
+
+Lemma traversal_loop_v fuel : forall sp trav ds, vspec (QTrav ds (clean_trav trav)) (traversal_loop fuel sp trav ds).
+Proof.
+  induction fuel as [|f IH]; intros sp trav ds; [vbase|].
+  unfold vspec in *. vstart. cbn [traversal_loop]. vrun.
+Qed.
+
+Lemma parse_traversal_v fuel sp : vspec (QTrav [] true) (parse_traversal fuel sp).
+Proof.
+  pose proof (traversal_loop_v fuel) as Hl. unfold vspec in *. vstart. unfold parse_traversal. vrun.
+Qed.
+
+Lemma parse_traversal_entry_m_v fuel sp :
+  vspec (fun r rc rc' => snd r = [] -> rc = false -> rc' = rc' /\ clean_trav (fst r) = true)
+        (parse_traversal_entry_m fuel sp).
+Proof.
+  pose proof (parse_traversal_v fuel sp) as Hl. unfold vspec in *. vstart. unfold parse_traversal_entry_m. vrun.
+Qed.
+
+(* ---- the theorem ------------------------------------------------------------------------------------------------
+   unusable_implies_error: at the five public entry points, a result that comes WITHOUT any
+   diagnostic (lexer diagnostics included) holds no placeholder: no unknown-value literal
+   (errPlaceholderExpr, the "Invalid expression" placeholder, an unparsable number), no
+   ExprSyntaxError node, no unknown index key, in any attribute expression at any depth.
+   Equivalently: whenever a placeholder is returned, an error diagnostic is returned with it. *)
 Definition unusable_implies_error_stmt : Prop :=
   (forall ts e, parse_expression_entry ts = EOk e [] -> clean e = true) /\
   (forall ts e, parse_template_entry ts = EOk e [] -> clean e = true) /\
-  (forall ts b, parse_config ts = EOk b [] -> forallb clean_body_item b = true).
+  (forall ts b, parse_config ts = EOk b [] -> clean_pbody b = true) /\
+  (forall ts t, parse_traversal_abs ts = EOk t [] -> clean_trav t = true) /\
+  (forall ts t, parse_traversal_partial ts = EOk t [] -> clean_trav t = true).
 
-(* unusable_implies_error_partial: the invariant "no diagnostic and recovery off at entry =>
-   recovery still off and the result (given clean accumulators) is clean" is proved for the
-   recovery helpers, parseQuotedStringLiteral, parseBinaryOps (every table), parseTernaryConditional,
-   parseExpressionWithTraversals and the attribute-splat loop, each relative to the same invariant
-   of the functions it calls.  Missing: parseExpressionTraversals (index keys written as
-   single-literal templates need the extra invariant "a one-part TemplateExpr holds a string"),
-   parseExpressionTerm, the constructors, the template and body parsers, and the knot. *)
-Theorem unusable_implies_error_partial :
-  (forall fuel e, vspec Qon (recover fuel e)) /\
-  (forall fuel, vspec Qon (recover_after_body_item fuel)) /\
-  (forall fuel, vspec Qds (parse_quoted_string_literal fuel)) /\
-  (forall pwt f ops, vspec QE pwt -> vspec QE (parse_binary_ops f pwt ops)) /\
-  (forall p_expr p_bin, vspec QE p_expr -> vspec QE p_bin ->
-     vspec QE (parse_ternary_conditional_body p_expr p_bin)) /\
-  (forall p_term p_trav, vspec QE p_term -> (forall e, vspec (QEacc [] (clean e)) (p_trav e)) ->
-     vspec QE (parse_expression_with_traversals_body p_term p_trav)).
+Theorem unusable_implies_error : unusable_implies_error_stmt.
 Proof.
+  destruct expression_unusable_implies_error as [H1 H2].
   repeat split.
-  - intros; apply recover_v.
-  - intros; apply rabi_v.
-  - intros; apply parse_quoted_string_literal_v.
-  - intros; apply parse_binary_ops_v; assumption.
-  - intros; apply ternary_v; assumption.
-  - intros; apply with_traversals_v; assumption.
+  - exact H1.
+  - exact H2.
+  - exact config_unusable_implies_error.
+  - intros ts t H. exact (run_entry_clean _ (fun t => clean_trav t) ts t (parse_traversal_entry_m_v _ false) H).
+  - intros ts t H. exact (run_entry_clean _ (fun t => clean_trav t) ts t (parse_traversal_entry_m_v _ true) H).
 Qed.
+
+(* an ExprSyntaxError node, the unknown placeholder and an unknown index key are not clean *)
+Example placeholders_are_not_clean :
+  clean e_syntax_error = false /\ clean (ELit dyn_val) = false /\
+  clean (EScopeTrav [97] [SIndex dyn_val]) = false /\ clean (ELit (VUnk TNum rf_none)) = false.
+Proof. repeat split; reflexivity. Qed.
